@@ -598,3 +598,18 @@ for _p in ["C01", "C02", "C03", "C04", "C10", "C11", "C16"]:
     CHECKS[_p]["rule"] = CHECKS[_p].get("rule", "") + (" || later additions: two-generation programs with (reinit) in between (one program in 16, 60 families), cleanups that go back into their own scope "
         "through a captured handle during a teardown, computations created inside a batch that read and write a signal, cleanups registering cleanups while the root goes away; "
         "every read/write statement rotates through all equivalent API forms")
+
+# --- C10 third clause without purity assumptions: every subscriber of a written signal runs (Props/C10Subscribers)
+_subs = [RX + n for n in ["C10_subscribers_of_written_run", "C01_subscribers_of_written_run_set", "C10_batch_subscribers_run",
+                          "C10_reachable_batch_subscribers_run", "C10_program_batch_subscribers_run", "C10_subscribers_nonvacuous", "reachable_atRest"]]
+CHECKS["C10"]["lean_modules"] = CHECKS["C10"]["lean_modules"] + ["SycVerif.Props.C10Subscribers"]
+CHECKS["C10"]["theorems"] += _subs
+CHECKS["C10"]["status"] += ("; for ARBITRARY closures (Props/C10Subscribers): every computation subscribed to a written signal when the propagation starts — for a batch: when the body of the "
+    "outermost batch has ended — has run by the time propagate_node_updates / the batch statement returns, or is gone; lifted to every program (C10_program_batch_subscribers_run); between "
+    "top-level operations nothing is marked, running or batching (reachable_atRest)")
+CHECKS["C01"]["lean_modules"] = CHECKS["C01"]["lean_modules"] + ["SycVerif.Props.C10Subscribers"]
+CHECKS["C01"]["theorems"] += [RX + "C01_subscribers_of_written_run_set", RX + "reachable_atRest"]
+CHECKS["C03"]["lean_modules"] = CHECKS["C03"]["lean_modules"] + ["SycVerif.Props.C10Subscribers"]
+CHECKS["C03"]["theorems"] += [RX + "C01_subscribers_of_written_run_set"]
+CHECKS["C10"]["partial"] = [{"theorem": "C10 (ii) 'state is consistent as after a single write' for impure bodies", "missing": "consistency of VALUES at the end of the batch is proved for pure computations and write-only batch bodies (C10_batch_end_consistent); "
+    "for arbitrary closures what is proved is that every subscriber of a written signal RAN (C10_batch_subscribers_run) and that nothing ran inside the batch; value consistency there is checked by the oracles"}]
